@@ -31,8 +31,8 @@ PLAN = {
         thorough=[*shards("TestC04Rapid", 12, checks=40000), *shards("TestC04Enum", 4), dict(fuzz="FuzzC04Rapid", seconds=60)],
     ),
     "C10": dict(
-        quick=[dict(test="TestC10Rapid", checks=1500), *shards("TestC10Aborts", 6), *shards("TestC10ManyConns", 2)],
-        thorough=[*shards("TestC10Rapid", 12, checks=20000), *shards("TestC10Aborts", 4), *shards("TestC10ManyConns", 4), dict(fuzz="FuzzC10", seconds=120)],
+        quick=[dict(test="TestC10Rapid", checks=1500), *shards("TestC10Aborts", 6), *shards("TestC10ManyConns", 2), dict(test="TestC10Vanished")],
+        thorough=[*shards("TestC10Rapid", 12, checks=20000), *shards("TestC10Aborts", 4), *shards("TestC10ManyConns", 4), dict(test="TestC10Vanished"), dict(fuzz="FuzzC10", seconds=120)],
     ),
     "C05": dict(
         quick=[SELF_IDL, dict(test="TestC05Rapid", checks=20000), *shards("TestC05Enum", 4)],
@@ -593,3 +593,4 @@ RULE["C14"] += " Kernel-listener variant: every cycle preceded by Bind + Shutdow
 RULE["C17"] += (" Service cells also with a serving context that reaches its deadline; after every interrupted Send / Upgrade-send / raw Write the peer drains and a "
                 "write under a live context on the same connection must succeed and arrive.")
 RULE["C18"] += " The upgrade frame itself, and frames preceding the raw data, can be 4000-70000 bytes (larger than the reader's buffer, tail coalesced with what follows)."
+RULE["C10"] += " Plus a subscription handler that streams continues-replies until a reply attempt fails, on pipe / unix / tcp, whose client reads 0 or 3 replies and vanishes: the handler must see its writes fail and return, the connection must be released."
